@@ -510,11 +510,33 @@ func (c *Ctx) sameDataChecked(ab *ssa.Function) {
 			c.R.Infof("K7.sized", name(ab), "size-of-stored", c.IPos(st), "not decided for this shape: the size written to the list is not computed from len() of a byte slice in this function")
 			return
 		}
+		// a value read back from the field of a local struct is the value stored there
+		var origin func(v ssa.Value, depth int) ssa.Value
+		origin = func(v ssa.Value, depth int) ssa.Value {
+			if ld, ok := v.(*ssa.UnOp); ok && ld.Op == token.MUL && depth < 4 {
+				if fa, ok := ld.X.(*ssa.FieldAddr); ok {
+					if _, isA := ir.RootOf(fa.X).(*ssa.Alloc); isA {
+						var vals []ssa.Value
+						instrsOf(ab, func(j ssa.Instruction) {
+							if st2, ok := j.(*ssa.Store); ok {
+								if fb, ok := st2.Addr.(*ssa.FieldAddr); ok && fb.Field == fa.Field && ir.RootOf(fb.X) == ir.RootOf(fa.X) {
+									vals = append(vals, st2.Val)
+								}
+							}
+						})
+						if len(vals) == 1 {
+							return origin(vals[0], depth+1)
+						}
+					}
+				}
+			}
+			return v
+		}
 		okS, detS := true, ""
 		for _, lc := range lens {
 			same := false
 			for _, b := range stored {
-				if lc.Call.Args[0] == b {
+				if origin(lc.Call.Args[0], 0) == origin(b, 0) {
 					same = true
 				}
 			}
@@ -930,7 +952,7 @@ func (c *Ctx) ruleNormalise(rule string) int {
 			}
 			dependsOnInput := false
 			dependsOnOther := false
-			for v := range c.sliceOf(ce.Cond) {
+			for v := range localOperands(ce.Cond) {
 				if p, ok := v.(*ssa.Parameter); ok {
 					if p == in {
 						dependsOnInput = true
@@ -964,4 +986,26 @@ func (c *Ctx) ruleNormalise(rule string) int {
 			"the input is returned unchanged on a path that neither asked pem.Decode nor depends on the signature type alone: "+bad)
 	}
 	return n
+}
+
+// localOperands: the values v is computed from inside its own function
+// (operands followed transitively; nothing beyond parameters and calls' arguments).
+func localOperands(v ssa.Value) map[ssa.Value]bool {
+	out := map[ssa.Value]bool{}
+	var walk func(x ssa.Value, depth int)
+	walk = func(x ssa.Value, depth int) {
+		if x == nil || out[x] || depth > 30 {
+			return
+		}
+		out[x] = true
+		if in, ok := x.(ssa.Instruction); ok {
+			for _, op := range in.Operands(nil) {
+				if *op != nil {
+					walk(*op, depth+1)
+				}
+			}
+		}
+	}
+	walk(v, 0)
+	return out
 }
